@@ -125,7 +125,7 @@ func zzC09Concurrent() {
 		inprog[pk.key]++
 		vAssert(inprog[pk.key] == 1, "two creations for the same key are in progress at the same time")
 		vAssert(!vHeld(&c.lock), "create function called with the cache lock held")
-		fails := vChoose("createFails", 2) == 1
+		fails := vParam("FAILS") == 1 && vChoose("createFails", 2) == 1
 		vYield()
 		inprog[pk.key]--
 		if fails {
@@ -149,10 +149,13 @@ func zzC09Concurrent() {
 	for t := 0; t < T; t++ {
 		np := 1
 		if P > 1 {
-			np = 1 + vChoose("len", P)
+			np = P
+			if vParam("FIXLEN") == 0 {
+				np = 1 + vChoose("len", P)
+			}
 		}
 		for j := 0; j < np; j++ {
-			o := &zzCOp{kind: vChoose("kind", 3)}
+			o := &zzCOp{kind: vChoose("kind", vParam("KINDS"))}
 			if o.kind != 2 {
 				o.key = vChoose("key", NK)
 			}
